@@ -111,14 +111,24 @@ pub fn run_crash_points(which: &'static str, tier: &str, seed: u64, n_cases: u64
   use std::rc::Rc;
   let class: &'static str = "crash-points";
   let one = |i: u64, only_k: Option<u64>, rep: &mut Report| {
-    let base = make_case(if i % 2 == 0 { "td-mixed" } else { "td-exact" }, seed ^ 0xC19, i);
-    let builds: Vec<usize> = base.steps.iter().enumerate().filter(|(_, s)| s.is_build()).map(|(k, _)| k).collect();
-    if builds.len() < 3 { return; }
+    // a third of the cases crash inside a BOTTOM-UP build (the property speaks of any aborted build; what must work
+    // afterwards are top-down builds, so every later bottom-up step is turned into a top-down session)
+    let crash_bottom_up = i % 3 == 2;
+    let mut base = make_case(if crash_bottom_up { "pure-mixed" } else if i % 2 == 0 { "td-mixed" } else { "td-exact" }, seed ^ 0xC19, i);
+    let builds: Vec<usize> = base.steps.iter().enumerate().filter(|(_, s)| if crash_bottom_up { matches!(s, Step::BottomUp(_)) } else { s.is_build() }).map(|(k, _)| k).collect();
+    if builds.len() < 2 { return; }
     let mut rng = Rng::derive(seed ^ 0xC19C19, i);
     let b = builds[rng.below(builds.len() - 1)];
+    let all: Vec<u32> = (0..base.prog.n_tasks() as u32).collect();
+    for k in b + 1..base.steps.len() {
+      if let Step::BottomUp(roots) = &base.steps[k] { let r = if roots.is_empty() { all.clone() } else { roots.clone() }; base.steps[k] = Step::TopDown(r); }
+    }
+    // half of the cases also enumerate crash points inside other user code (resource open, checkers, write functions)
+    let user_code = i % 2 == 1;
     // dry run: how many task operations does session b perform?
     crate::log::clear();
     crate::cell::faults_reset();
+    crate::cell::FAULTS.with(|f| f.borrow_mut().crash_in_user_code = user_code);
     let prog = Rc::new(base.prog.clone());
     let mut d: Driver<()> = Driver::new(prog.clone(), &base.init, ());
     let mut n_ops = 0;
@@ -126,16 +136,18 @@ pub fn run_crash_points(which: &'static str, tier: &str, seed: u64, n_cases: u64
       match st {
         Step::Set(r, v) => d.set(*r, *v),
         Step::TopDown(roots) => { d.session(None, roots); if k == b { n_ops = crate::cell::FAULTS.with(|f| f.borrow().op_counter); break; } }
+        Step::BottomUp(roots) => { let ch: Vec<u32> = d.pending.iter().copied().collect(); d.session(Some(ch), roots); d.pending.clear(); if k == b { n_ops = crate::cell::FAULTS.with(|f| f.borrow().op_counter); break; } }
         _ => {}
       }
     }
+    if crash_bottom_up { rep.add("crash_point_sessions_bottom_up", 1); }
     let _ = crate::log::take();
     rep.add("crash_point_sessions", 1);
     rep.max("max_operations_in_crashed_session", n_ops);
     let ks: Vec<u64> = match only_k { Some(k) => vec![k], None => (1..=n_ops).collect() };
     for k in ks {
       let mut case = base.clone();
-      case.steps.insert(b, Step::PanicAt(k));
+      case.steps.insert(b, if user_code { Step::PanicAtAny(k) } else { Step::PanicAt(k) });
       let mut opts = opts_for(which, class, tier, seed, i * 1000 + k);
       opts.idempotence_probe = false;
       let mut r = CaseRunner::new(&case, &opts, rep);
